@@ -448,6 +448,38 @@ def h_identity_multiples(E, dim):
     return 'ok'
 
 
+def h_identity_multiples_sampler(E, dim, kind):
+    """IdentityMatrixMultiples with every kind of scalar sampler the schema accepts: the multiple is a member of THAT sampling set (a complex one included)"""
+    import mitxgraders.matrixsampling as M
+    import mitxgraders.sampling as S
+    from mitxgraders.helpers.calc.math_array import MathArray
+    with rng(E):
+        if kind == 'complex-rectangle':
+            r0, r1, i0, i1 = E.real('re0', -6, 6), E.real('re1', -6, 6), E.real('im0', 1, 6), E.real('im1', 1, 6)
+            sampler = S.ComplexRectangle(re=[r0, r1], im=[i0, i1])
+        elif kind == 'integer-range':
+            lo, hi = E.int('start', -4, 4), E.int('stop', -4, 4)
+            sampler = S.IntegerRange(start=lo, stop=hi)
+        else:
+            vals = [E.real('member%d' % k, -6, 6) for k in range(2)]
+            sampler = S.DiscreteSet(tuple(vals))
+        s = M.IdentityMatrixMultiples(dimension=dim, sampler=sampler)
+        A = s.gen_sample()
+    E.check('is-MathArray-of-declared-shape', isinstance(A, MathArray) and A.shape == (dim, dim))
+    c = A[0, 0]
+    parts = lambda v: (getattr(v, 'real', v), getattr(v, 'imag', 0))   # noqa
+    cr, ci = parts(c)
+    E.check('scalar-times-identity', sand(*[sand(near_eq(parts(A[i, j])[0], cr if i == j else 0), near_eq(parts(A[i, j])[1], ci if i == j else 0))
+                                            for i in range(dim) for j in range(dim)]))
+    if kind == 'complex-rectangle':
+        E.check('scalar-in-sampling-set', sand(near_le(smin(r0, r1), cr), near_le(cr, smax(r0, r1)), near_le(smin(i0, i1), ci), near_le(ci, smax(i0, i1))))
+    elif kind == 'integer-range':
+        E.check('scalar-in-sampling-set', sand(near_le(smin(lo, hi), cr), near_le(cr, smax(lo, hi)), near_eq(ci, 0)))
+    else:
+        E.check('scalar-in-sampling-set', sand(sor(*[near_eq(cr, v) for v in vals]), near_eq(ci, 0)))
+    return 'ok'
+
+
 def harnesses(tier):
     hs = []
     T = tier == 'thorough'
@@ -481,6 +513,9 @@ def harnesses(tier):
                 hs.append(Harness(pname('array', kind='square', dim=dim, symmetry=sym, traceless=tl), h_array, ('square', (dim, dim), (sym, tl)), FUNCS,
                                   'norm ends in [0.5,6]', STUBS))
         add(h_identity_multiples, 'identity_multiples', dict(dim=dim), 'scalar range ends in [-6,6]')
+        if dim == 2:
+            for kind in ('complex-rectangle', 'integer-range'):
+                add(h_identity_multiples_sampler, 'identity_multiples_sampler', dict(dim=dim, kind=kind), 'scalar drawn from that sampling set')
     add(h_complex_array, 'complex_array', dict(kind='vector', opt=None), 'complex 2-vector, norm ends in [0.5,6]')
     for tri in (None, 'upper'):
         add(h_complex_array, 'complex_array', dict(kind='matrix', opt=tri), 'complex 2x2, norm ends in [0.5,6]')
